@@ -117,7 +117,7 @@ def _body(ctx, rng, s, V, extras, sm, E):
         if res.oos:
             ctx.count("points_out_of_scope")
             continue
-        out = M.call(S.build(s).at, sm.Point(**pd))
+        out = M.call(lambda: S.build(s).at(sm.Point(**pd)))
         ctx.evaluation()
         what = f"{what0} at {S.show_point(pd)}"
         ctx.hist("at_outcome", ("complete" if complete else "lacking") + "->" + out.cls)
@@ -176,7 +176,7 @@ def _body(ctx, rng, s, V, extras, sm, E):
             pd = {v: full.get(v, 1.5) for v in rv}
             if R.NORMAL.evaluate(rs, pd).oos:
                 continue
-            o = M.call(r.value.at, sm.Point(**pd))
+            o = M.call(lambda: r.value.at(sm.Point(**pd)))
             ctx.evaluation()
             ctx.count("derivative_expressions_evaluated_at_exactly_their_variables")
             if o.kind == "CoordinateMissing":
